@@ -111,7 +111,7 @@ pub proof fn lemma_binds_o_none(find: &SExp, name: Seq<u8>)
     }
 }
 
-// ASSUMED contract of operator_head (string match on "c" / "f" / "r"): the head is the primitive's opcode
+// ASSUMED contract of operator_head: the installed Verus does not connect a string-literal match arm ("c" => ...) with equality of the views (tried: postcondition not provable even with reveal_strlit), so the three arms are read off by hand
 //@ extract fn operator_head from src/compiler/evaluate.rs
 //@ stub
 //@ sig r
